@@ -791,7 +791,7 @@ class BaseLoss(object):
         for i in range(num_time - 1):
             FF = ode_utils.vecToMatFF(solution_all[i,base_index_hess::], nS, nP)
             E = np.zeros(nS)
-            E[self._stateIndex] += -diff_loss[i]
+            E[self._stateIndex] += diff_loss[i]
             H += scipy.sparse.kron(E, scipy.sparse.eye(nP)).dot(FF)
 
         # just the J^{\top}J part of the Hessian (which is guarantee to be PSD)
